@@ -446,6 +446,11 @@ def check_C15(run):
         vlib.write_ndjson(pth, joined[i::nchunk])
         paths.append(pth)
     o["observations"], o["distinct"] = len(joined), len(joined)
+    # every query repeated on one object and on a second one, over the v2 base/temporal domain and seeded v2/v3 environmental vectors
+    rp = harness_json(run, ["repeat", "-reps", "6" if run.quick else "24", "-out", run.work, "-tier", run.tier, "-pid", "C15"])
+    rv = vlib.validate_trace(run, "Trace_Objects", rp["chunks"], pid="C15", label="repeat")
+    judge(run, rv, describe=lambda ev: ev.get("s", ""))
+    run.cov["vectors_with_repeated_queries"] = rp["extra"]["vectors_probed"]
     verdicts = vlib.validate_trace(run, "Trace_Objects", paths, pid="C15", label="orders")
     judge(run, verdicts, describe=lambda ev: ev.get("s", "")[:200])
     run.cov.update(o["extra"])
